@@ -27,6 +27,7 @@ type crashPoint struct {
 	im    *vcrashfs.Image
 	files []*fileModel // model files flushed at that point (copies)
 	fams  map[int64]bool
+	nBat  int // batches written so far
 }
 
 type crashRecorder struct {
@@ -57,7 +58,7 @@ func (r *crashRecorder) at(label string) {
 		return
 	}
 	r.seen[h] = true
-	cp := &crashPoint{label: label, step: r.step, im: im, fams: map[int64]bool{}}
+	cp := &crashPoint{label: label, step: r.step, im: im, fams: map[int64]bool{}, nBat: r.w.m.nBatch}
 	for _, f := range r.w.m.files {
 		c := *f
 		cp.files = append(cp.files, &c)
@@ -167,7 +168,18 @@ func runCrashCase(rep *vevid.Report, f *vevid.Flags, c *Case) {
 		return
 	}
 	nontrivial := false
+	// every crash image is evaluated twice: reopen + rollup, and reopen + one more flush into the first source family
+	// + rollup (the interrupted rollup's files then meet a new one in the same job)
+	type variant struct {
+		cp    *crashPoint
+		flush bool
+	}
+	var variants []variant
 	for _, cp := range rec.points {
+		variants = append(variants, variant{cp, false}, variant{cp, true})
+	}
+	for _, vr := range variants {
+		cp, withFlush := vr.cp, vr.flush
 		rep.States++
 		_ = os.RemoveAll(dir)
 		if err := cp.im.Materialize(dir); err != nil {
@@ -186,8 +198,16 @@ func runCrashCase(rep *vevid.Report, f *vevid.Flags, c *Case) {
 			continue
 		}
 		rw := &world{dir: dir, box: b, c: c, known: map[string]bool{}, m: newModel(shape)}
-		rw.m.files = cp.files
-		rw.m.fams = cp.fams
+		rw.m.files = append([]*fileModel(nil), cp.files...)
+		rw.m.fams = map[int64]bool{}
+		for k := range cp.fams {
+			rw.m.fams[k] = true
+		}
+		rw.m.nBatch = cp.nBat
+		tag := "reopen, rollup"
+		if withFlush {
+			tag = "reopen, flush, rollup"
+		}
 		func() {
 			defer func() {
 				if r := recover(); r != nil {
@@ -205,6 +225,33 @@ func runCrashCase(rep *vevid.Report, f *vevid.Flags, c *Case) {
 			if half {
 				nontrivial = true
 			}
+			if withFlush {
+				// one more source file in the family of the first batch (odd batch numbers go there)
+				rw.markKnown(pre)
+				if rw.m.nBatch%2 == 0 {
+					rw.m.nBatch++
+				}
+				if rw.m.nBatch < 3 {
+					rw.m.nBatch = 3
+				}
+				err := rw.writeBatch()
+				if err == nil {
+					err = rw.flush()
+				}
+				if err != nil {
+					rep.Violate(vevid.Violation{Clause: "crash/step-error", Scenario: scen, Site: site, Detail: fmt.Sprintf("%s: flush after recovery: %v", where, err), Replay: c})
+					return
+				}
+				mid, err := rw.observe()
+				if err != nil {
+					rep.Violate(vevid.Violation{Clause: "crash/unreadable", Scenario: scen, Site: site, Detail: fmt.Sprintf("%s: families cannot be read after the flush that follows recovery: %v", where, err), Replay: c})
+					return
+				}
+				if err := rw.register(mid); err != nil {
+					rep.Violate(vevid.Violation{Clause: "crash/step-error", Scenario: scen, Site: site, Detail: fmt.Sprintf("%s: flush after recovery: %v", where, err), Replay: c})
+					return
+				}
+			}
 			if err := rw.rollup(); err != nil {
 				rep.Violate(vevid.Violation{Clause: "crash/step-error", Scenario: scen, Site: site, Detail: fmt.Sprintf("%s: rollup after recovery: %v", where, err), Replay: c})
 				return
@@ -216,8 +263,8 @@ func runCrashCase(rep *vevid.Report, f *vevid.Flags, c *Case) {
 			}
 			// reference marks may stay behind when the kill hit between the source commit and their cleanup: not checked here
 			obs.refMarks = nil
-			ok := check(rep, c, rw, obs, "crash/", scen, fmt.Sprintf("crash during step %d after [%s], reopen, rollup", cp.step+1, cp.label), true)
-			rep.Outcome(fmt.Sprintf("crash/%s step=%d at=%s refs-and-marks-live=%v tgtfiles=%d ok=%v", c.Steps, cp.step+1, site, half, obs.tgtFiles, ok))
+			ok := check(rep, c, rw, obs, "crash/", scen, fmt.Sprintf("crash during step %d after [%s], %s", cp.step+1, cp.label, tag), true)
+			rep.Outcome(fmt.Sprintf("crash/%s step=%d at=%s refs-and-marks-live=%v flush=%v tgtfiles=%d ok=%v", c.Steps, cp.step+1, site, half, withFlush, obs.tgtFiles, ok))
 			rep.Transitions++
 		}()
 	}
